@@ -55,6 +55,9 @@ def gen_budget(rng, profile='migrate', year=2025):
         rid += len(rows) + 1
         st.fill_caps(rng, lay, rows)
         file = 'data/%s.csv' % nm.lower()
+        if profile == 'full' and rng.random() < 0.25:
+            # what a statement file is called says nothing about how it is read
+            file = 'data/' + rng.choice(['%s.txt', '%s.TSV', '%s.dat', '%s export 2025', '%s.csv.txt', '%s.tab']) % nm.lower()
         src = {'name': nm, 'file': file, 'layout': lay, 'rows': rows, 'supplemental': False,
                'settings': st.source_settings(lay, nm, file)}
         b['sources'].append(src)
